@@ -111,6 +111,12 @@ func C16(c *fw.Ctx) {
 			return
 		}
 		label := j.ID[:strings.Index(j.ID, "/")]
+		if res.Fatal != nil && res.Fatal.Stage == "build" {
+			// the process died while the project was being built: that is C01's matter, no accessor was ever called
+			c.Count(jobKey(j), false)
+			c.Inc("verdicts", "died-during-the-build(judged by C01)", 1)
+			return
+		}
 		if res.Fatal != nil {
 			// an accessor call that never returns (or kills the process) is the strongest way of not returning the canonical bytes
 			c.Violate("fatal:"+res.Fatal.Kind+":"+res.Fatal.Func, "the worker process died or hung while the call sequences were run: "+firstLines(res.Fatal.Stderr, 5), replayOf(j, res))
